@@ -13,8 +13,12 @@ pub const BUILTIN_IMPORTS: &[&str] = &[
 ];
 const PRIMS: &[&str] = &["int", "long", "boolean", "byte", "char", "float", "double", "short"];
 const ANNOTS: &[&str] = &[
-    "@nullable", "@utf8InCpp", "@VintfStability", "@Backing", "@JavaDerive", "@RustDerive", "@Descriptor",
-    "@SuppressWarnings", "@JavaSuppressLint", "@Enforce", "@JavaPassthrough", "@Hide", "@MyOwn",
+    "@nullable", "@utf8InCpp", "@VintfStability", "@UnsupportedAppUsage", "@Hide", "@Backing",
+    "@NdkOnlyStableParcelable", "@JavaOnlyStableParcelable", "@RustOnlyStableParcelable", "@JavaDerive",
+    "@JavaPassthrough", "@FixedSize", "@Descriptor", "@RustDerive", "@SuppressWarnings", "@Enforce",
+    "@PermissionManuallyEnforced", "@RequiresNoPermission", "@PropagateAllowBlocking", "@JavaSuppressLint",
+    "@SensitiveData", "@JavaDefault", "@JavaDelegator", "@JavaOnlyImmutable", "@Deprecated", "@Override",
+    "@MyOwn",
 ];
 const ANNOT_KEYS: &[&str] = &["type", "toString", "value", "equals", "size", "signed", "min", "Clone", "x", "y"];
 
@@ -577,6 +581,51 @@ impl Universe {
     }
 }
 
+/// Dictionary harvested from the program under test: every `@word` that occurs inside a string
+/// literal of /repo/src (annotation names, javadoc tags the library gives a meaning to). Rare
+/// vocabulary that the code looks for becomes frequent in some runs. Deterministic for a
+/// given source tree.
+pub fn harvested_at_words() -> &'static Vec<String> {
+    static WORDS: std::sync::OnceLock<Vec<String>> = std::sync::OnceLock::new();
+    WORDS.get_or_init(|| {
+        let mut out: std::collections::BTreeSet<String> = std::collections::BTreeSet::new();
+        if let Ok(rd) = std::fs::read_dir("/repo/src") {
+            let mut files: Vec<_> = rd.flatten().map(|e| e.path()).collect();
+            files.sort();
+            for f in files {
+                let name = f.file_name().map(|n| n.to_string_lossy().to_string()).unwrap_or_default();
+                if !(name.ends_with(".rs") || name.ends_with(".lalrpop")) || name == "verif.rs" {
+                    continue;
+                }
+                let text = std::fs::read_to_string(&f).unwrap_or_default();
+                let mut in_str = false;
+                let mut prev = ' ';
+                let mut word = String::new();
+                let mut collecting = false;
+                for c in text.chars() {
+                    if c == '"' && prev != '\\' {
+                        in_str = !in_str;
+                    }
+                    if in_str && c == '@' {
+                        collecting = true;
+                        word.clear();
+                        word.push('@');
+                    } else if collecting && (c.is_ascii_alphanumeric() || c == '_') {
+                        word.push(c);
+                    } else if collecting {
+                        if word.len() >= 4 && word.len() <= 40 && word[1..].chars().next().map(|x| x.is_ascii_alphabetic()).unwrap_or(false) {
+                            out.insert(word.clone());
+                        }
+                        collecting = false;
+                    }
+                    prev = c;
+                }
+            }
+        }
+        out.into_iter().take(200).collect()
+    })
+}
+
 /// Per-run generation knobs (swarm)
 #[derive(Clone, Debug)]
 pub struct GenKnobs {
@@ -602,6 +651,11 @@ pub struct GenKnobs {
     pub p_block_comments: u32,
     /// imports that extend a key by one segment, or are a prefix of a key
     pub p_nested_import: u32,
+    /// this run's favourite annotation names / doc texts, used with probability p_fav (swarm: a
+    /// vocabulary item that is rare overall is frequent in some runs)
+    pub fav_annots: Vec<String>,
+    pub fav_docs: Vec<String>,
+    pub p_fav: u32,
 }
 
 impl GenKnobs {
@@ -625,6 +679,27 @@ impl GenKnobs {
             p_unicode: *rng.pick(&[0, 0, 10, 30]),
             p_block_comments: *rng.pick(&[0, 0, 15, 40]),
             p_nested_import: *rng.pick(&[0, 8, 25]),
+            fav_annots: (0..rng.range(1, 2))
+                .map(|_| {
+                    let h = harvested_at_words();
+                    if !h.is_empty() && rng.pct(50) {
+                        rng.pick(h).clone()
+                    } else {
+                        rng.pick(ANNOTS).to_string()
+                    }
+                })
+                .collect(),
+            fav_docs: (0..rng.range(1, 2))
+                .map(|_| {
+                    let h = harvested_at_words();
+                    if !h.is_empty() && rng.pct(50) {
+                        format!("{} something", rng.pick(h))
+                    } else {
+                        rng.pick(DOC_TEXTS).to_string()
+                    }
+                })
+                .collect(),
+            p_fav: *rng.pick(&[0, 0, 60, 90]),
         }
     }
 
@@ -652,9 +727,15 @@ impl GenKnobs {
 }
 
 fn gen_annots(rng: &mut Rng, k: &GenKnobs) -> Vec<Annot> {
-    let mut v = Vec::new();
-    while rng.pct(k.p_annot) && v.len() < 2 {
-        let name = rng.pick(ANNOTS).to_string();
+    let mut v: Vec<Annot> = Vec::new();
+    while rng.pct(if v.is_empty() { k.p_annot.max(k.p_fav) } else { k.p_annot }) && v.len() < 3 {
+        if !v.is_empty() && rng.pct(15) {
+            // the same annotation again
+            let again: Annot = v[0].clone();
+            v.push(again);
+            continue;
+        }
+        let name = if rng.pct(k.p_fav) { rng.pick(&k.fav_annots).clone() } else { rng.pick(ANNOTS).to_string() };
         let mut params = Vec::new();
         // 0..2 parameters mostly, sometimes up to 5; keys distinct, sometimes one repeated
         let np = if rng.pct(25) { rng.range(2, 5) } else { rng.below(3) };
@@ -675,18 +756,25 @@ fn gen_annots(rng: &mut Rng, k: &GenKnobs) -> Vec<Annot> {
     v
 }
 
+const DOC_TEXTS: &[&str] = &[
+    "Documentation",
+    "Be polite and say hello",
+    "@param x the thing",
+    "First line.\n     * Second line",
+    "",
+    "@deprecated use something else",
+    "Old API.\n     * @deprecated since 2",
+    "@hide",
+    "{@hide}",
+    "@return nothing\n     * @throws RemoteException sometimes",
+    "@see p.Foo\n     * {@link q.Bar}",
+    "@removed\n     * @SystemApi",
+    "TODO: oneway? FixedSize? in out inout",
+];
+
 fn gen_doc_comment(rng: &mut Rng, k: &GenKnobs) -> Option<String> {
-    if rng.pct(k.p_doc) {
-        Some(
-            rng.pick(&[
-                "Documentation",
-                "Be polite and say hello",
-                "@param x the thing",
-                "First line.\n     * Second line",
-                "",
-            ])
-            .to_string(),
-        )
+    if rng.pct(k.p_doc.max(k.p_fav * 2 / 3)) {
+        Some(if rng.pct(k.p_fav) { rng.pick(&k.fav_docs).clone() } else { rng.pick(DOC_TEXTS).to_string() })
     } else {
         None
     }
